@@ -119,6 +119,7 @@ class TT():
             self.__N = []
             self.__R = [1, 1]
             self.__is_ttm = False
+            self.shape = []
 
         elif isinstance(source, list):
             # tt cores were passed directly
